@@ -85,11 +85,11 @@ def check(ctx):
 
     trs_to_dict = ctx.repo.func('TRS.trs_to_dict')
     construct = ctx.repo.func('TRS.construct_trs')
-    anchored_calls(ctx, trs_to_dict, min_calls=1)
-    anchored_calls(ctx, construct, min_calls=3)
+    ctx.attempt(anchored_calls, trs_to_dict, min_calls=1)
+    ctx.attempt(anchored_calls, construct, min_calls=3)
 
     # language facts on the unpacker
-    _inc(ctx, 'RX-LANG', 'TRS._TRS_UNPACKER_REGEX', F.TRS_CANON, rv, 'canonical ###n###w##')
+    ctx.attempt(_inc, 'RX-LANG', 'TRS._TRS_UNPACKER_REGEX', F.TRS_CANON, rv, 'canonical ###n###w##')
     L = common.lang(ctx, rv)
     lowered = 'lower' in flow.prov_calls(_subject_prov(ctx, trs_to_dict))
     ctx.notes['trs_to_dict_lowercases_input'] = lowered
@@ -136,9 +136,9 @@ def check(ctx):
                       detail_bad=f"malformed component {s!r} accepted as a whole",
                       key=f"RX-LANG-NEG|{attr}|{s}")
 
-    _construct_defuse(ctx, construct)
-    _siblings(ctx, trs_to_dict, construct)
-    _eq_hash(ctx)
+    ctx.attempt(_construct_defuse, construct)
+    ctx.attempt(_siblings, trs_to_dict, construct)
+    ctx.attempt(_eq_hash)
 
 
 def _subject_prov(ctx, fi):
